@@ -26,7 +26,11 @@ TArith == /\ Ev.e = "Arith"
                 /\ Len(Ev.res) >= 1
                 /\ Chk(\A i \in 1..Len(Ev.res) :
                           /\ CheckedAgainst(d, Ev.res[i].ok = 1, Ev.res[i].r)
-                          /\ SaturatingAgainst(d, Ev.op, bits, Ev.res[i].s))
+                          /\ SaturatingAgainst(d, Ev.op, bits, Ev.res[i].s)
+                          \* the same call expanded in other usage contexts, and with the operands swapped
+                          /\ SaturatingAgainst(d, Ev.op, bits, Ev.res[i].s2)
+                          /\ SaturatingAgainst(d, Ev.op, bits, Ev.res[i].s3)
+                          /\ SaturatingAgainst(ArithDef(Ev.op, Ev.b, Ev.a, bits), Ev.op, bits, Ev.res[i].sc))
           /\ UNCHANGED sizebits
 
 TBits == /\ Ev.e = "Bits"
